@@ -6,6 +6,7 @@ package harness
 import (
 	"bytes"
 	"fmt"
+	"sort"
 	"testing"
 
 	"pgregory.net/rapid"
@@ -67,6 +68,50 @@ func TestC17(t *testing.T) {
 			}
 		}
 		Col.MarkExhaustive("zero value and constructor result of all 170 types")
+	})
+	// a message whose body/extension the caller left out, under every discriminator value that means something
+	// anywhere in the library: every key of every table of the same key kind, and every 3-digit application id
+	t.Run("absent-part-every-key", func(t *testing.T) {
+		seed := int(EnvSeed() % 1000003)
+		for ti, tb := range TableList {
+			if !MyShare(ti) {
+				continue
+			}
+			holder := holderOf(tb)
+			numeric := Types[holder].Fields[Types[holder].FieldIndex(Types[holder].Fields[Types[holder].DynIndex()].Disc)].Kind == "num"
+			keys := map[string]bool{}
+			for _, other := range TableList {
+				on := Types[holderOf(other)].Fields[Types[holderOf(other)].FieldIndex(Types[holderOf(other)].Fields[Types[holderOf(other)].DynIndex()].Disc)].Kind == "num"
+				if on != numeric {
+					continue
+				}
+				for _, k := range other.Order {
+					keys[k] = true
+				}
+			}
+			if !numeric {
+				for n := 0; n < 1000; n++ {
+					keys[fmt.Sprintf("%03d", n)] = true
+				}
+			}
+			ks := make([]string, 0, len(keys))
+			for k := range keys {
+				ks = append(ks, k)
+			}
+			sort.Strings(ks)
+			for i, k := range ks {
+				c := &CaseC17{Type: holder, How: "value", V: holderWithKey(seed+i, tb, k, false, "")}
+				reg := "unregistered-here"
+				if tb.TypeFor(k) != "" {
+					reg = "registered"
+				}
+				Col.Case(Hash64([]byte(tb.QName), []byte(k), []byte("absent")), true, "absent-part-enumerated-key", "key:"+reg)
+				if !Direct(t, "C17", "c17", "absent/"+tb.QName+"/"+k, c, oracleC17) {
+					break
+				}
+			}
+		}
+		Col.MarkExhaustive("every message with a discriminated part, the part left out, under every key registered in any table of the same key kind and every 3-digit application id")
 	})
 	if Thorough() {
 		// giants: the frames that can exceed 16 MiB (32-bit list counts) with 1.5 million and 2^22+3 entries
